@@ -140,7 +140,7 @@ def r2_parsing(ctx):
         if isinstance(x, ast.Assign) and isinstance(x.targets[0], ast.Name):
             env[x.targets[0].id] = x.value
     ok = sym.same(env.get("scientific"), f"np.any({q} == 'e', axis=-1)") and sym.same(env.get("numbers"), f"np.empty(len({q}))")
-    ctx.ob(g.where, "a row is scientific iff it contains 'e'; one result slot per row", ok, "", key="C18-R2|scientific-mask")
+    ctx.ob(g.where, "a row is scientific iff it contains 'e'; one result slot per row", ok, "", key="C18-R2|scientific-mask", definite=True)
     allrets = [x for x in body_walk(g.node) if isinstance(x, ast.Return)]
     okr = all(u(r.value) == "numbers" or (isinstance(r.value, ast.Call) and u(r.value.func) in ("_decimal_str_to_float", "_scientific_str_to_float")) for r in allrets)
     if not okr:
